@@ -261,7 +261,7 @@ def check(pid, tier):
             # the directed histories always (message types and server identifiers in sequence, boundary seconds, fills), the rest sampled
             dirs = [s for s in pk if s["sc"].startswith("dir-")]
             rest = [s for s in pk if not s["sc"].startswith("dir-")]
-            pick = pk if run.thorough else dirs + run.rng.sample(rest, min(len(rest), 45))
+            pick = dirs + run.rng.sample(rest, min(len(rest), 45 if not run.thorough else 400))
             tf, sl, p = http_rig.run_full(run, pid, [{"acls": None, "lease": s, "steps": []} for s in pick], "lease")
             if not any('"lvl":"svc"' in l for l in sl):
                 raise ToolError("rig full produced no service-level lease events (exit %s): %s" % (p.returncode, (p.stderr or "")[-300:]))
